@@ -15,7 +15,8 @@ TECHNIQUE = ('fuzzing: structurally and bytewise mutated peer traffic (Hypothesi
 RULE = ('cases: a peer-model conversation for a client or server (after a prefix of local calls that puts streams '
         'into several states) mutated structurally (fields, lengths, types, flags, stream ids, duplication, '
         'reordering, adversarial HPACK blocks: bad indices, truncated integers/strings, Huffman garbage, empty '
-        'names, non-UTF-8, table-size updates) and/or bytewise, or raw bytes, fed in drawn chunks under a drawn '
+        'names, non-UTF-8, table-size updates, uninterpretable values in the fields the library interprets such as '
+        'content-length and :status), CONTINUATION floods of 63..3000 empty or tiny fragments, and/or bytewise, or raw bytes, fed in drawn chunks under a drawn '
         'combination of the four validation/normalisation switches and header_encoding; non-trivial = the input '
         'holds >= 2 complete frames and at least one stream-level event or an error was produced; distinct by '
         'concrete trace; violations are bucketed by (exception type, innermost h2 function)')
@@ -44,11 +45,13 @@ def run_case(data):
         'normalize_outbound_headers': not cfgbits & 8,
         'header_encoding': 'utf-8' if cfgbits & 64 else None,
     }
-    mode = ch.weighted([(6, 'frames'), (2, 'frames+bytes'), (2, 'bytes'), (1, 'raw'), (1, 'valid')])
+    mode = ch.weighted([(6, 'frames'), (2, 'frames+bytes'), (2, 'bytes'), (1, 'raw'), (1, 'valid'), (1, 'cont-flood')])
     frames = sc.frames
     start = 0 if sc.client else 1
     if mode in ('frames', 'frames+bytes'):
         frames, _ = bytesgen.mutate_frames(ch, frames, start if ch.chance(230) else 0)
+    if mode == 'cont-flood':
+        frames = list(frames) + bytesgen.continuation_flood(ch, ch.pick([1, 3, 5, 7, 9, 2]))
     stream = b''.join(frames)
     if mode in ('bytes', 'frames+bytes'):
         stream = bytesgen.mutate_bytes(ch, stream, 0 if ch.chance(32) else (0 if sc.client else 24))
